@@ -76,7 +76,9 @@ def run (c obs : String) : String × String × Bool :=
       let obsDump := (obs.splitOn " ## ").getD 0 ""
       let same := (obs.splitOn " ## same=").getD 1 ""
       let oracle :=
-        if obs.startsWith "compileerr" || obs.startsWith "preerr" then "compilation failed: " ++ obs
+        if obs == "preerr envwritable" then
+          "after Session.Run the tasks carry an invocation whose compile environment is still writable (workers would record their own view of the cache files)"
+        else if obs.startsWith "compileerr" || obs.startsWith "preerr" then "compilation failed: " ++ obs
         else if (same.splitOn ",").getD 0 "" != "1" then "compiling the same invocation twice gave different task graphs"
         else if (same.splitOn ",").getD 1 "" == "0" then "a worker compiling the transported invocation gets a different task graph"
         else if (same.splitOn ",").getD 1 "" == "err" then "the invocation does not survive transport"
